@@ -458,7 +458,80 @@ func c10Scenarios() []aliasScenario {
 	return out
 }
 
+// c10Rejected: a call that is REJECTED (returns an error) leaves every operand
+// exactly as it was - elements, shape, flags, gradient, edges - and the operands
+// stay usable: a later valid operation on them gives the model's result.
+func c10Rejected(c *core.Ctx) {
+	shapes := [][]int{{2}, {3}, {2, 3}, {4, 3}, {2, 2}, {1, 3}, {2, 3, 2}, {}}
+	type call struct {
+		op ref.Op
+		in [][]int
+	}
+	var calls []call
+	for _, a := range shapes {
+		for _, b := range shapes {
+			for _, k := range []string{"Add", "Mul", "Div", "ElMax", "ElMin", "Dot", "MatMul", "Eq", "Gt", "Patch"} {
+				calls = append(calls, call{ref.Op{K: k}, [][]int{a, b}})
+			}
+			for dim := -1; dim <= 3; dim++ {
+				calls = append(calls, call{ref.Op{K: "Concat", Dim: dim}, [][]int{a, b}})
+				calls = append(calls, call{ref.Op{K: "Concat", Dim: dim}, [][]int{a, a, b}}, call{ref.Op{K: "Concat", Dim: dim}, [][]int{a, b, a}})
+			}
+			calls = append(calls, call{ref.Op{K: "Patch", Index: []ref.Range{{From: 1, To: 3}}}, [][]int{a, b}}, call{ref.Op{K: "Patch", Index: []ref.Range{{From: 0, To: 0}, {From: 1, To: 2}}}, [][]int{a, b}})
+		}
+		for _, op := range []ref.Op{
+			{K: "Reshape", Shape: []int{5}}, {K: "Reshape", Shape: []int{-1, -6}}, {K: "Reshape", Shape: []int{0}},
+			{K: "Broadcast", Shape: []int{5, 5}}, {K: "Broadcast", Shape: []int{1}}, {K: "Broadcast", Shape: []int{2, 2, 7}},
+			{K: "Slice", Index: []ref.Range{{From: 1, To: 9}}}, {K: "Slice", Index: []ref.Range{{From: 2, To: 1}}}, {K: "Slice", Index: []ref.Range{{From: -1, To: 1}}},
+			{K: "Slice", Index: []ref.Range{{From: 0, To: 0}, {From: 0, To: 0}, {From: 0, To: 0}, {From: 0, To: 1}}},
+			{K: "SumAlong", Dim: 3}, {K: "MaxAlong", Dim: -1}, {K: "VarAlong", Dim: 4}, {K: "MeanAlong", Dim: 3},
+			{K: "Squeeze", Dim: 0}, {K: "Squeeze", Dim: 1}, {K: "Squeeze", Dim: 5}, {K: "UnSqueeze", Dim: 5}, {K: "UnSqueeze", Dim: -1},
+			{K: "Flatten", Dim: 3}, {K: "Flatten", Dim: -1}, {K: "Transpose"},
+		} {
+			calls = append(calls, call{op, [][]int{a}})
+		}
+	}
+	for ci, cl := range calls {
+		for tr := 0; tr < 2; tr++ {
+			ci, cl, tr := ci, cl, tr
+			c.Case(fmt.Sprintf("rejected/%d/%s%v/t%d", ci, cl.op, cl.in, tr), true, func() core.Verdict {
+				in := make([]*ref.T, len(cl.in))
+				rin := make([]tensor.Tensor, len(cl.in))
+				before := make([]snap, len(cl.in))
+				for i, s := range cl.in {
+					in[i] = enum.Generic(s, uint64(900+i), 0.5, 3, true)
+					rin[i] = rt.Make(in[i], tr == 1)
+					before[i] = snapOf(rin[i])
+				}
+				held := append([]tensor.Tensor{}, rin...) // rt.Apply clears the caller's Concat list
+				var err error
+				if p := rt.Catch(func() { _, err = rt.Apply(cl.op, rin) }); p != nil {
+					return core.Skip() // a panic is C09's subject
+				}
+				if err == nil {
+					return core.Skip() // accepted: the write-set cases cover it
+				}
+				for i, t := range held {
+					if d := diffSnap(before[i], snapOf(t), false); d != "" {
+						return core.Fail("%s on shapes %v was rejected (%v) but changed operand %d: %s", cl.op, cl.in, err, i, d)
+					}
+					y := t.Scale(2)
+					exp := ref.Map(in[i], func(v float64) float64 { return 2 * v })
+					if ok, msg := core.Close(rt.Read(y), exp, scaleOf(exp)); !ok {
+						return core.Fail("%s on shapes %v was rejected (%v); operand %d is damaged afterwards: Scale(2) gives %s", cl.op, cl.in, err, i, msg)
+					}
+					if n := t.NElems(); n != ref.Size(in[i].Shape) {
+						return core.Fail("%s on shapes %v was rejected (%v); operand %d now reports %d elements", cl.op, cl.in, err, i, n)
+					}
+				}
+				return core.Pass()
+			})
+		}
+	}
+}
+
 func checkC10(c *core.Ctx) {
+	defer c10Rejected(c)
 	// (i) write sets: every op configuration of a small shape set, operands
 	// tracked and untracked
 	opts := opCaseOpts{shapes: enum.Shapes(2, []int{1, 2, 3}), maxIndexRank: 2, concatSizes: []int{1, 2}, concat3: true}
